@@ -63,10 +63,15 @@ BaseSeq(b) ==
                          SH(1, 1), BH(1), CTL(65536, 0, 0, 0), CTL(65536, 8928, -131072, 0), CTL(0, 0, 0, 1), EndOp,
                          SH(0, 2), OP(1, 0, 0, 0, 0), EndOp,
                          SH(1, 3), BH(1), CTL(131072, 0, 0, 0), CTL(0, 0, 0, 1), EndOp >>
+    \* a FIRST PUSH: the old container has no file at all (NT = 0: every file index is out of range, NT - 1 is negative);
+    \* universe << >> -> <<98304, 0>>
+    [] b = "push" ->  << SH(0, 0), OP(1, 0, 0, 0, 98304), EndOp,
+                         SH(0, 1), OP(1, 0, 0, 0, 0), EndOp >>
     [] b = "sig" ->   << HASH, HASH, HASH, HASH, HASH >>
     [] b = "overlay" -> << OV(0, 1000, 0), OV(1, 0, 500), OV(0, 2000, 0), OV(1, 0, 3), OV(OEND, 0, 0) >>
     [] b = "none" ->  << >>
-BasesOf(c) == CASE c \in {"apply", "skip", "rediff"} -> {"plain", "opt"}
+PushSSizes == <<98304, 0>>
+BasesOf(c) == CASE c \in {"apply", "skip", "rediff"} -> {"plain", "opt", "push"}
                 [] c = "sig" -> {"sig"}
                 [] c = "overlay" -> {"overlay"}
                 [] c = "hashinfo" -> {"none"}
@@ -284,7 +289,8 @@ Step == /\ Running
 
 (* ------------------------------ MC: mutations of valid streams ------------------------------ *)
 Init == /\ cons \in Consumers /\ base \in BasesOf(cons)
-        /\ tsz = UTSizes /\ ssz = USSizes /\ spath = USamePath
+        /\ tsz = (IF base = "push" THEN << >> ELSE UTSizes) /\ ssz = (IF base = "push" THEN PushSSizes ELSE USSizes)
+        /\ spath = (IF base = "push" THEN <<-1, -1>> ELSE USamePath)
         /\ msgs = BaseSeq(base) /\ cutk = Len(msgs) + 1 /\ how = "boundary" /\ nmut = 0
         /\ r = R0
 Mutate ==
